@@ -296,3 +296,15 @@ package decoder
 //@   loop 0: invariant 0 <= count && count <= count0 && 0 <= offset && offset + 2 * count == 2 * count0 && offset % 2 == 0 && len(buffer) == 2 * count0 && fresh(buffer) && common.wfBS(bits) && bits.bytes == old(bits.bytes)
 //@   loop 0: invariant forall i int :: 0 <= i && i < offset && i % 2 == 0 ==> ((129 <= int(buffer[i]) && int(buffer[i]) <= 159) || (224 <= int(buffer[i]) && int(buffer[i]) <= 235)) && int(buffer[i+1]) >= 64
 //@   loop 0: decreases count
+
+// ---------------------------------------------------------------- ECI designator (ISO/IEC 18004 8.4.1.1), C15
+// one, two or three bytes: 0bbbbbbb | 10bbbbbb bbbbbbbb | 110bbbbb bbbbbbbb bbbbbbbb; any other first byte is a format error
+//@ func DecodedBitStreamParser_parseECIValue(bits *common.BitSource) (r int, e error)
+//@   property C15 C06
+//@   mode bv
+//@   requires bits != nil && common.wfBS(bits) && len(bits.bytes) <= 1000000
+//@   ensures e == nil ==> 0 <= r && r <= 2097151
+//@   ensures e != nil ==> r == -1
+//@   ensures old(common.availBS(bits)) < 8 ==> e != nil
+//@   internal e == nil ==> (firstByte < 128 && r == firstByte && common.availBS(bits) == old(common.availBS(bits)) - 8) || (128 <= firstByte && firstByte < 192 && r >= 0 && r / 256 == firstByte - 128 && common.availBS(bits) == old(common.availBS(bits)) - 16) || (192 <= firstByte && firstByte < 224 && r / 65536 == firstByte - 192 && common.availBS(bits) == old(common.availBS(bits)) - 24)
+//@   internal e != nil && old(common.availBS(bits)) >= 24 ==> firstByte >= 224
